@@ -27,8 +27,9 @@ use swc_trace_macro::swc_trace;
 use thiserror::Error;
 use tracing::debug;
 
-static OPERATION_REGEX: Lazy<Regex> =
-    Lazy::new(|| Regex::new(r"\s*(entrypoint|field|pointer)\s*([^\.\s]+)\.([^\s\(]+)").unwrap());
+static OPERATION_REGEX: Lazy<Regex> = Lazy::new(|| {
+    Regex::new(r"\s*(entrypoint|field|pointer)\s*([^\.\s]+)\s*\.\s*([^\s\(\{@\x22]+)").unwrap()
+});
 
 #[derive(Deserialize)]
 #[serde(deny_unknown_fields)]
